@@ -20,6 +20,9 @@ def make(tier):
     LK = lambda n: '  __CPROVER_assert(!g_locked && !g_bad_lock && g_lock_ops == %d, "every public call takes the context mutex exactly once and releases it");\n' % n
     hc = LOCK
     hc += 'void h_ctx_get_root(void){ VF_IN(u32, root); %s u32 g = vf_ctx_get_root(root);\n  __CPROVER_assert(g == root, "get of a location without any set yields the root level");\n%s  VF_PROBE(); }\n' % (RNG('root'), LK(1))
+    hc += 'void h_ctx_only(void){ VF_IN(u32, root); %s u32 g = vf_ctx_only(root);\n  __CPROVER_assert(g == root && g_lock_ops == 0, "construction and destruction only");\n  VF_PROBE(); }\n' % RNG('root')
+    hc += 'void h_ctx_set_only(void){ VF_IN(u32, root); VF_IN(u32, la); %s u32 g = vf_ctx_set_only(root, la);\n%s  VF_PROBE(); }\n' % (RNG('root', 'la'), LK(1))
+    hc += 'void h_ctx_set_get1(void){ VF_IN(u32, root); VF_IN(u32, la); %s u32 g = vf_ctx_set_get1(root, la);\n  __CPROVER_assert(g == la, "get(a) is the level set on a");\n%s  VF_PROBE(); }\n' % (RNG('root', 'la'), LK(2))
     hc += ('void h_ctx_set_get(void){ VF_IN(u32, root); VF_IN(u32, la); %s u32 ga, gab, gc; vf_ctx_set_get(root, la, &ga, &gab, &gc);\n'
            '  __CPROVER_assert(ga == la, "get(a) is the level set on a");\n  __CPROVER_assert(gab == la, "get(a::b) is the level of the deepest set prefix a");\n  __CPROVER_assert(gc == root, "get(c) is the root level");\n%s  VF_PROBE(); }\n') % (RNG('root', 'la'), LK(4))
     hc += ('void h_ctx_override(void){ VF_IN(u32, root); VF_IN(u32, la); VF_IN(u32, lb); %s u32 gab, ga; vf_ctx_override(root, la, lb, &gab, &ga);\n'
@@ -32,6 +35,6 @@ def make(tier):
                 srcs=[L + 'src/log/context.cpp', L + 'src/log/detail/context_tree_node.cpp', L + 'impl/src/log/impl/find_or_create_child.cpp', L + 'impl/src/log/impl/find_child.cpp', L + 'impl/src/log/impl/find_child_const.cpp',
                       L + 'impl/src/log/impl/convert_level.cpp', L + 'src/log/location.cpp', L + 'src/log/level_stream.cpp'])
     US = 'vf_memmove.0:10,vf_memmove.1:10,vf_memset.0:10'
-    for nm in ('h_ctx_get_root', 'h_ctx_set_get', 'h_ctx_override', 'h_ctx_depth'):
-        uc.lemma(nm, cls='B', unwind=8 if nm == 'h_ctx_get_root' else 3, mem=24, backends=['sat'], timeout=1800, cbmc=['--slice-formula', '--unwindset', US], bound='constant names', what='context scenario')
+    for nm in ('h_ctx_only', 'h_ctx_set_only', 'h_ctx_set_get1', 'h_ctx_get_root', 'h_ctx_set_get', 'h_ctx_override', 'h_ctx_depth'):
+        uc.lemma(nm, cls='B', unwind=3, unwind_files={'/c++/12/array': 8, 'vf_memmove.': 10, 'vf_memset.': 10}, mem=40, backends=['sat'], timeout=1800, cbmc=['--slice-formula'], bound='constant names', what='context scenario')
     return P
